@@ -181,8 +181,7 @@ AccountCode == \E a \in focus :
              [seen EXCEPT !.c[a] = <<Info(a).code>>, !.b[a] = InfoT(Info(a))], conf)
 
 \* Code by hash, only for hashes that exist: in D's code store or arrived through the layer.
-\* `cm` marks a hash known only from a commit (State serves such code through basic().code,
-\* never by hash -- see checks/dblayers.py, assumptions).
+\* `cm` marks a hash known only from a commit; every layer that accepts commits must serve it.
 CodeByHash == \E c \in CodeKnown :
     /\ UNCHANGED blockSeq
     /\ Query([op |-> "code_by_hash", h |-> c, cm |-> (c \notin DCodes)], <<c>>,
